@@ -13,31 +13,31 @@ POOL_NOTE = ("Thorough tier adds a coverage-guided libFuzzer leg (cargo-fuzz tar
 CHECKS = {
     "C02": dict(engine="poolsim", ref="§5 C02, §4 E1",
         technique="stateful property-based testing: generated operation histories (proptest) interpreted against the real pool with scripted collaborators; invariant checked at every hand-off",
-        text="No counterexample among the generated issue/poll/cancel/dial/handshake/release/ready/close/upgrade/background histories: at every hand-off of a non-multiplexed connection nobody else held it, it had reported ready since its previous use, and it had not been taken over by an upgrade. Exploration, not proof: histories up to 40 (quick) / 120 (thorough) operations, up to 16 requests.",
+        text="No counterexample among the generated issue/poll/cancel/dial/handshake/release/ready/close/upgrade/background histories: at every hand-off of a non-multiplexed connection nobody else held it, it had reported ready since its previous use, and it had not been taken over by an upgrade; the model connection comes in two flavours (is_open() = open and ready, as the crate's HttpConnection, or = not closed, which the trait also allows). Exploration, not proof: histories up to 40 (quick) / 120 (thorough) operations, up to 16 requests.",
         note=POOL_NOTE),
     "C03": dict(engine="poolsim", ref="§5 C03, §4 E1",
         technique="stateful property-based testing with fault-sequence generation (dial/handshake failures, cancels) plus deterministic drain and probe; history invariants: no request pending after drain, no progress without a wake-up",
         text="Every generated history is followed by a drain (all outstanding attempts terminate) and a fresh probe request per origin: every uncancelled request must have resolved, no request may progress on a re-poll without its waker having fired (lost wake-up), and the probe must complete.",
         note=POOL_NOTE),
-    "C04": dict(engine="poolsim", ref="§5 C04, §4 E1",
+    "C04": dict(engine="poolsim+netsim", ref="§5 C04, §4 E1, §10.3",
         technique="stateful property-based testing; necessary-condition rules over harness ground truth (reuse, HTTP/2 dial dedup, sharing, cancel preserves) compared with the transport's connect() calls",
-        text="Rules A-D of DESIGN §5 C04 evaluated on ground truth kept by the harness: a request issued while a reusable connection certainly exists never dials; an HTTP/2 request issued while an HTTP/2 attempt for its origin is in flight never dials; cancelling a request that never used a connection leaves every healthy connection alive.",
+        text="Rules A-D of DESIGN §5 C04 evaluated on ground truth kept by the harness: a request issued while a reusable connection certainly exists never dials; an HTTP/2 request issued while an HTTP/2 attempt for its origin is in flight never dials; cancelling a request that never used a connection leaves every healthy connection alive. An end-to-end leg (netsim, real hyper connections) requires all requests of a pooled client to an HTTP/2-only origin, bursts included, to arrive on one accepted connection.",
         note=POOL_NOTE + " Rule preconditions are lower bounds (ambiguity can hide violations, never invent them); one documented exclusion for rule B (DESIGN §5 C04)."),
     "C05": dict(engine="poolsim", ref="§5 C05, §4 E1",
         technique="stateful property-based testing with peer-close faults injected at every stage; hand-off invariant against recorded close/entry steps; small real-time leg for idle expiry",
-        text="At every hand-off of a previously pooled connection its close step is compared with the request's issue step and the connection's last pool-entry step; two expiry legs (random histories and structured scenarios with several idle connections of different ages, one of them closed) sleep in real time on both sides of a 25 ms idle_timeout with one-sided assertions.",
+        text="At every hand-off of a previously pooled connection its close step is compared with the request's issue step and the connection's last pool-entry step; two expiry legs (random histories and structured scenarios with several idle connections of different ages, one of them closed) sleep in real time on both sides of a 25 ms idle_timeout with one-sided assertions; a third leg uses whole-second timeouts (1 s / 2 s) with a 1.15 s sleep.",
         note=POOL_NOTE + " Idle expiry uses std::time::Instant: only coarse one-sided real-time assertions."),
     "C06": dict(engine="poolsim", ref="§5 C06, §4 E1",
         technique="stateful property-based testing over an 18-entry origin table (scheme, port, host, letter case, near misses such as the other scheme's default port, IP literals) and over hundreds of synthetic origins; hand-off invariant on (scheme, host, effective port)",
-        text="At every hand-off the origin the connection was dialed for equals the origin of the request's URI, with waiters and idle connections alive for several origins at once; a near-miss leg draws 2-4 origins per case from the whole table (http://h:443 vs http://h, https://h:80 vs https://h, same explicit port under the other scheme, hosts extending one another, IPv4/IPv6 literals); a many-origins leg first sweeps 40-700 distinct origins (so that key/token bookkeeping is exercised at scale) and then issues requests to early and late origins.",
+        text="At every hand-off the origin the connection was dialed for equals the origin of the request's URI, with waiters and idle connections alive for several origins at once; a near-miss leg draws 2-4 origins per case from the whole table (http://h:443 vs http://h, https://h:80 vs https://h, same explicit port under the other scheme, hosts extending one another, IPv4/IPv6 literals), with caller-supplied Host headers naming a shared virtual host on all or every second request; a many-origins leg first sweeps 40-700 distinct origins (so that key/token bookkeeping is exercised at scale) and then issues requests to early and late origins.",
         note=POOL_NOTE),
     "C14": dict(engine="poolsim", ref="§5 C14, §4 E1",
         technique="stateful property-based testing; obligation tracking over generated schedules (release vs first poll vs background hand-back vs dial completion), both continue_after_preemption settings",
         text="(a) when a connection re-enters the pool while a request is waiting for its own in-flight dial, it must be delivered by the time every request lacking a connection has been polled once; (b) with continue_after_preemption an abandoned dial is never dropped and its connection is kept; (c) without it the dial is dropped and leaves nothing.",
         note=POOL_NOTE),
-    "C15": dict(engine="poolsim", ref="§5 C15, §4 E1",
+    "C15": dict(engine="poolsim+netsim", ref="§5 C15, §4 E1, §10.3",
         technique="stateful property-based testing; lower bound of retained idle connections per origin (counted from Drop-tracking harness connections) compared with max_idle_per_host after every operation",
-        text="After every operation the number of connections that are certainly idle in the pool (alive, open, unheld, handed back with nobody waiting, minus one per issued-but-unpolled request) never exceeds max_idle_per_host in {0,1,2,3,32}.",
+        text="After every operation the number of connections that are certainly idle in the pool (alive, open, unheld, handed back with nobody waiting, minus one per issued-but-unpolled request) never exceeds max_idle_per_host in {0,1,2,3,32}. An end-to-end leg (netsim) counts the connections an HTTP/1-only origin still sees open long after bursts of requests completed: never more than max_idle_per_host.",
         note=POOL_NOTE),
 }
 
@@ -107,9 +107,9 @@ CHECKS.update({
         text="Serving future resolves Ok exactly at the signal; every request whose handler started before the signal receives its complete correct response; every connection task (including idle keep-alive connections and connections still in protocol detection) finishes while the clients keep their ends open; nothing is accepted or served on a connection accepted after the signal. A second leg resolves the signal synchronously while the k-th connection of a burst of simultaneous connects is being accepted (in the middle of one poll of the serving future): no connection beyond the k-th may be accepted or served.",
         note=NET_NOTE + " Idle holders are only placed where hyper itself closes them on graceful shutdown (auto-detecting and idle HTTP/1 connections)."),
     "C09": dict(engine="netsim+socksrv+tlsstack", ref="§5 C09, §4 E2, §10.3",
-        technique="fault-sequence generation in virtual time: per-connection faults (cancelled connect, disconnects, garbage, truncated head/body, mid-response disconnect, partial preface, handler errors) interleaved with well-behaved requests; oracle = serving futures still pending, probe client served, other requests correct",
+        technique="fault-sequence generation in virtual time: per-connection faults (cancelled connect, disconnects, garbage, truncated head/body, mid-response disconnect, partial preface, clients asking for a 0- or 1-byte pipe, handler errors) interleaved with well-behaved requests; oracle = serving futures still pending, probe client served, other requests correct",
         text="After 1-5 generated faults per case the serving future of every server must still be pending, a fresh well-behaved probe client must be served by every server, and every well-behaved request on other connections must have completed with its correct response.",
-        note=NET_NOTE + " A real-socket leg (engine socksrv) repeats the fault/probe scheme on TCP and Unix acceptors in real time (reset or close before accept, garbage, truncated head/body); a probe that merely times out there is inconclusive. A TLS-listener leg (engine tlsstack) injects plaintext, garbage, truncated-ClientHello, immediate-close and wrong-SNI clients at a real Server with with_tls and then requires a well-behaved TLS probe to be served and the serving future still pending. OS-level accept() errors are not reachable."),
+        note=NET_NOTE + " A real-socket leg (engine socksrv) repeats the fault/probe scheme on TCP and Unix acceptors in real time (reset or close before accept, garbage, truncated head/body, Unix clients bound to plain and non-UTF-8 pathnames); a probe that merely times out there is inconclusive. A TLS-listener leg (engine tlsstack) injects plaintext, garbage, truncated-ClientHello, immediate-close and wrong-SNI clients at a real Server with with_tls and then requires a well-behaved TLS probe to be served and the serving future still pending. OS-level accept() errors are not reachable."),
 })
 
 NOT_YET = {
